@@ -299,4 +299,255 @@ theorem factorOutPrefix_ok {rs rs' : List RuleN} {A : Name} {pre : List SymN}
     subst h
     exact StepOK.refl _
 
+/-! ## the fold and the loop -/
+
+theorem foldlM_factor_ok : ∀ (prefixes : List (Name × List SymN)) (rs rs' : List RuleN),
+    prefixes.foldlM (fun acc (x : Name × List SymN) => factorOutPrefix acc x.1 x.2) rs = some rs' →
+      StepOK (rs.map RuleN.toEProd) (rs'.map RuleN.toEProd)
+  | [], rs, rs', h => by
+    simp only [List.foldlM_nil, Option.pure_def, Option.some.injEq] at h
+    subst h
+    exact StepOK.refl _
+  | (A, pre) :: ps, rs, rs', h => by
+    simp only [List.foldlM_cons, Option.bind_eq_bind, Option.bind_eq_some_iff] at h
+    obtain ⟨rs1, h1, h2⟩ := h
+    exact (factorOutPrefix_ok h1).trans (foldlM_factor_ok ps rs1 rs' h2)
+
+theorem factorOut_ok {ord : GroupOrd} {rs rs' : List RuleN} {m : Bool}
+    (h : factorOut ord rs = some (rs', m)) :
+    StepOK (rs.map RuleN.toEProd) (rs'.map RuleN.toEProd) := by
+  unfold factorOut at h
+  simp only [Option.map_eq_some_iff, Prod.mk.injEq] at h
+  obtain ⟨rs1, h1, rfl, _⟩ := h
+  exact foldlM_factor_ok _ _ _ h1
+
+theorem leftFactorLoop_ok {ord : GroupOrd} : ∀ (fuel : Nat) (rs rs' : List RuleN),
+    leftFactorLoop ord fuel rs = some rs' → StepOK (rs.map RuleN.toEProd) (rs'.map RuleN.toEProd)
+  | 0, _, _, h => by simp [leftFactorLoop] at h
+  | f+1, rs, rs', h => by
+    simp only [leftFactorLoop] at h
+    split at h
+    · cases h
+    · rename_i rs1 h1
+      exact (factorOut_ok h1).trans (leftFactorLoop_ok f rs1 rs' h)
+    · rename_i rs1 h1
+      injection h with h
+      subst h
+      exact factorOut_ok h1
+
+/-- the last round of a terminated run found nothing to factor -/
+theorem leftFactorLoop_exit {ord : GroupOrd} : ∀ (fuel : Nat) (rs rs' : List RuleN),
+    leftFactorLoop ord fuel rs = some rs' → findLongestPrefixes ord rs' = []
+  | 0, _, _, h => by simp [leftFactorLoop] at h
+  | f+1, rs, rs', h => by
+    simp only [leftFactorLoop] at h
+    split at h
+    · cases h
+    · rename_i rs1 h1
+      exact leftFactorLoop_exit f rs1 rs' h
+    · rename_i rs1 h1
+      injection h with h
+      subst h
+      unfold factorOut at h1
+      simp only [Option.map_eq_some_iff, Prod.mk.injEq, Bool.not_eq_false', List.isEmpty_iff] at h1
+      obtain ⟨rs2, h2, rfl, he⟩ := h1
+      rw [he] at h2
+      simp only [List.foldlM_nil, Option.pure_def, Option.some.injEq] at h2
+      subst h2
+      exact he
+
+/-! ## `find_prefix` returns nothing only if no first symbol is shared -/
+
+/-- the step function of `bestFirst` for an arbitrary counting function -/
+def bfStep (cnt : List SymN → Nat) (best : Option (List SymN × Nat)) (c : List SymN) :
+    Option (List SymN × Nat) :=
+  match best with
+  | none => some (c, cnt c)
+  | some (_, b) => if cnt c > b then some (c, cnt c) else best
+
+theorem bestFirst_fold (cnt : List SymN → Nat) :
+    ∀ (l : List (List SymN)) (best : Option (List SymN × Nat)),
+      (∀ c ∈ l, ∃ k v, l.foldl (bfStep cnt) best = some (k, v) ∧ cnt c ≤ v) ∧
+      (∀ k b, best = some (k, b) → ∃ k' v, l.foldl (bfStep cnt) best = some (k', v) ∧ b ≤ v) ∧
+      (∀ k v, l.foldl (bfStep cnt) best = some (k, v) → (best = some (k, v)) ∨ (k ∈ l ∧ v = cnt k))
+  | [], best => by
+    refine ⟨?_, ?_, ?_⟩
+    · intro c hc; cases hc
+    · intro k b h; exact ⟨k, b, h, Nat.le_refl _⟩
+    · intro k v h; exact .inl h
+  | c :: l, best => by
+    simp only [List.foldl_cons]
+    obtain ⟨h1, h2, h3⟩ := bestFirst_fold cnt l (bfStep cnt best c)
+    have hstep : (∃ k b, best = some (k, b) ∧ ¬ cnt c > b ∧ bfStep cnt best c = best) ∨
+        (bfStep cnt best c = some (c, cnt c) ∧ ∀ k b, best = some (k, b) → b ≤ cnt c) := by
+      cases best with
+      | none => exact .inr ⟨rfl, fun k b h => by cases h⟩
+      | some kb =>
+        obtain ⟨k0, b0⟩ := kb
+        by_cases hgt : cnt c > b0
+        · right
+          refine ⟨by simp [bfStep, hgt], ?_⟩
+          intro k b h
+          simp only [Option.some.injEq, Prod.mk.injEq] at h
+          omega
+        · left
+          exact ⟨k0, b0, rfl, hgt, by simp [bfStep, hgt]⟩
+    refine ⟨?_, ?_, ?_⟩
+    · intro c' hc'
+      simp only [List.mem_cons] at hc'
+      rcases hc' with rfl | hc'
+      · rcases hstep with ⟨k, b, hb, hle, he⟩ | ⟨he, _⟩
+        · obtain ⟨k', v, hr, hv⟩ := h2 k b (he.trans hb)
+          exact ⟨k', v, hr, by omega⟩
+        · obtain ⟨k', v, hr, hv⟩ := h2 c' (cnt c') he
+          exact ⟨k', v, hr, hv⟩
+      · exact h1 c' hc'
+    · intro k b hb
+      rcases hstep with ⟨k0, b0, hb0, hle, he⟩ | ⟨he, hle⟩
+      · obtain ⟨k', v, hr, hv⟩ := h2 k b (he.trans hb)
+        exact ⟨k', v, hr, hv⟩
+      · obtain ⟨k', v, hr, hv⟩ := h2 c (cnt c) he
+        exact ⟨k', v, hr, Nat.le_trans (hle k b hb) hv⟩
+    · intro k v hr
+      rcases h3 k v hr with h | ⟨h, hv⟩
+      · rcases hstep with ⟨k0, b0, hb0, hle, he⟩ | ⟨he, hle⟩
+        · exact .inl (he.symm.trans h)
+        · rw [he] at h
+          simp only [Option.some.injEq, Prod.mk.injEq] at h
+          obtain ⟨rfl, rfl⟩ := h
+          exact .inr ⟨by simp, rfl⟩
+      · exact .inr ⟨by simp [h], hv⟩
+
+theorem bestFirst_eq (cs : List (List SymN)) :
+    bestFirst cs = cs.foldl (bfStep (fun c => cs.count c)) none := rfl
+
+theorem bestFirst_spec (cs : List (List SymN)) :
+    (∀ c ∈ cs, ∃ k v, bestFirst cs = some (k, v) ∧ cs.count c ≤ v) ∧
+    (∀ k v, bestFirst cs = some (k, v) → k ∈ cs ∧ v = cs.count k) := by
+  obtain ⟨h1, _, h3⟩ := bestFirst_fold (fun c => cs.count c) cs none
+  rw [bestFirst_eq]
+  refine ⟨h1, ?_⟩
+  intro k v h
+  rcases h3 k v h with h | h
+  · cases h
+  · exact h
+
+theorem mem_prefixesOfLen {cands : List (List SymN)} {n : Nat} {k : List SymN}
+    (h : k ∈ prefixesOfLen cands n) : k.length = n := by
+  simp only [prefixesOfLen, List.mem_filterMap] at h
+  obtain ⟨c, _, hc⟩ := h
+  split at hc
+  · injection hc with hc
+    subst hc
+    simp; omega
+  · cases hc
+
+/-- `find_prefix(candidates, n)` for `n ≥ 1` is empty only if every prefix of length `n` occurs
+    at most once among the candidates -/
+theorem findPrefixN_nil {cands : List (List SymN)} {n : Nat} (hn : 0 < n)
+    (h : findPrefixN cands n = []) : ∀ c, (prefixesOfLen cands n).count c ≤ 1 := by
+  intro c
+  unfold findPrefixN at h
+  simp only at h
+  by_cases hm : c ∈ prefixesOfLen cands n
+  · split at h
+    · rename_i hlen
+      have : (prefixesOfLen cands n).count c ≤ (prefixesOfLen cands n).length := List.count_le_length
+      omega
+    · obtain ⟨h1, h2⟩ := bestFirst_spec (prefixesOfLen cands n)
+      obtain ⟨k, v, hb, hv⟩ := h1 c hm
+      rw [hb] at h
+      simp only at h
+      split at h
+      · have hk := mem_prefixesOfLen (h2 k v hb).1
+        rw [h] at hk
+        simp at hk
+        omega
+      · omega
+  · rw [List.count_eq_zero_of_not_mem hm]
+    omega
+
+theorem findLongestPrefix_nil {cands : List (List SymN)} {f n : Nat}
+    (h : findLongestPrefix cands (f + 1) n = []) : findPrefixN cands n = [] := by
+  simp only [findLongestPrefix] at h
+  split at h
+  · rename_i hc
+    simp only [Bool.and_eq_true, List.isEmpty_iff] at hc
+    exact hc.1
+  · split at h
+    · exact h
+    · rename_i hne1 hne2
+      split at h
+      · exact absurd (by simpa using h) hne2
+      · rename_i hp3
+        exact absurd (by simpa using h) hp3
+
+theorem count_prefixes_one (cands : List (List SymN)) (s : SymN) :
+    (prefixesOfLen cands 1).count [s] = (cands.filter (fun c => c.head? == some s)).length := by
+  induction cands with
+  | nil => simp [prefixesOfLen]
+  | cons c cands ih =>
+    simp only [prefixesOfLen] at ih ⊢
+    cases c with
+    | nil => simpa using ih
+    | cons a c =>
+      by_cases ha : a = s
+      · subst ha
+        simp [ih]
+      · have : ¬ (s = a) := fun e => ha e.symm
+        simp [ih, ha]
+
+theorem mem_firstOccs {x : Name} : ∀ {l : List Name}, x ∈ firstOccs l ↔ x ∈ l
+  | [] => by simp [firstOccs]
+  | a :: l => by
+    simp only [firstOccs, List.mem_cons, List.mem_filter, decide_eq_true_eq, mem_firstOccs (l := l)]
+    constructor
+    · rintro (h | ⟨h, _⟩)
+      · exact .inl h
+      · exact .inr h
+    · rintro (h | h)
+      · exact .inl h
+      · by_cases e : x = a
+        · exact .inl e
+        · exact .inr ⟨h, e⟩
+
+/-- an order parameter that loses no group (every permutation does) -/
+def KeepsAll (ord : GroupOrd) : Prop := ∀ l x, x ∈ l → x ∈ ord l
+
+theorem exit_no_common_first {ord : GroupOrd} (hord : KeepsAll ord) {rs : List RuleN}
+    (h : findLongestPrefixes ord rs = []) (A : Name) (s : SymN) :
+    (rs.filter (fun r => r.lhs = A && r.rhs.head? == some s)).length ≤ 1 := by
+  by_cases hA : ∃ r ∈ rs, r.lhs = A
+  · obtain ⟨r, hr, hrA⟩ := hA
+    have hg : (A, rs.filter (fun r => r.lhs = A)) ∈ ord (groupByLhs rs) := by
+      apply hord
+      simp only [groupByLhs, List.mem_map]
+      exact ⟨A, mem_firstOccs.2 (List.mem_map.2 ⟨r, hr, hrA⟩), rfl⟩
+    unfold findLongestPrefixes at h
+    rw [List.filterMap_eq_nil_iff] at h
+    have := h _ hg
+    simp only at this
+    split at this
+    · rename_i hp
+      simp only [List.isEmpty_iff] at hp
+      unfold findPrefix at hp
+      have h1 := findPrefixN_nil (by omega) (findLongestPrefix_nil hp) [s]
+      rw [count_prefixes_one] at h1
+      have e : (rs.filter (fun r => r.lhs = A && r.rhs.head? == some s)).length =
+          (((rs.filter (fun r => r.lhs = A)).map (·.rhs)).filter
+            (fun c => c.head? == some s)).length := by
+        rw [List.filter_map, List.length_map, List.filter_filter]
+        congr 2
+        funext r
+        simp [Bool.and_comm]
+      omega
+    · cases this
+  · have : rs.filter (fun r => r.lhs = A && r.rhs.head? == some s) = [] := by
+      rw [List.filter_eq_nil_iff]
+      intro r hr
+      simp only [Bool.and_eq_true, decide_eq_true_eq, not_and]
+      intro e
+      exact absurd ⟨r, hr, e⟩ hA
+    simp [this]
+
 end ParolModel
